@@ -21,7 +21,19 @@ def run(tier):
     def add(fam, p, root, layout, eol, lrng):
         src = render(p, root, rng=lrng, layout=layout, eol=eol)
         finalize(p, root)
-        progs.append({"id": len(progs) + 1, "fam": fam, "root": root, "nodes": [dict(n) for n in p.nodes[1:]], "src": src, "layout": [layout, eol]})
+        rec = {"id": len(progs) + 1, "fam": fam, "root": root, "nodes": [dict(n) for n in p.nodes[1:]], "src": src, "layout": [layout, eol]}
+        # every third program is loaded from a FILE, half of those behind a '#' first line
+        # (LoadFile skips it; the line numbers of all tokens still count it)
+        if len(progs) % 3 == 0:
+            rec["opts"] = {"file": True}
+            rec["fam"] = fam + "@file"
+            if len(progs) % 2 == 0 and "\n" in eol:      # the skipped first line ends at LF (as in luaL_loadfile)
+                rec["src"] = "#!/usr/bin/env lua -- first line of a script file" + eol + src
+                rec["fam"] = fam + "@shebang"
+                for nd in rec["nodes"]:
+                    if nd.get("ln") and nd["ln"][0]:
+                        nd["ln"] = [nd["ln"][0] + 1, nd["ln"][1] + 1]
+        progs.append(rec)
 
     combos = list(itertools.product(gen_lines.FAILS, gen_lines.PLACES))
     rng.shuffle(combos)
